@@ -527,3 +527,6 @@ RULES = [
     ("C11.EOFMARK", "an entered empty line is not taken for end of input (reader keeps the terminator)", rule_eofmark),
     ("C11.SHOW", "the display callbacks of the capturing writers show every non-empty text", rule_show),
 ]
+
+
+RULES.append(("C11.STATECELL", "the state that is displayed and stepped obeys the NaN rule of the stack cell (shared with C01.NAN): NaN is stored on a non-empty stack and never at the bottom of an empty one", p_c01.rule_nan))
